@@ -281,7 +281,8 @@ def v4(run, ven):
                         if d.get('kind') == 'VarDecl' and d.get('init') and cx.kids(d):
                             out.append('%s = %s' % (d.get('name'), cx.render(cx.kids(d)[-1])))
                     return '; '.join(out)
-                return stmt_text(n.ast)
+                t_ = stmt_text(n.ast)
+                return '' if t_.replace(' ', '') in ('(void)0', '0', ';') else t_      # statements without effect
 
             def skip(n):
                 return n.kind not in ('cond', 'switch', 'return') and text(n) == '' and len(n.succ) == 1 and n.id != g.exit.id
